@@ -1,0 +1,12 @@
+//go:build verif
+
+package quicswarm
+
+import "io"
+
+// Verification hooks (build tag verif).
+
+// VerifReadFrame exposes the length-prefixed frame reader used on every stream.
+func VerifReadFrame(src io.Reader, dst []byte, maxLen int) (int, error) {
+	return readFrame(src, dst, maxLen)
+}
